@@ -42,6 +42,15 @@ def install_perturbation(spec, stats):
 def main():
     spec = json.load(open(sys.argv[1])); outp = sys.argv[2]
     res = {"status": "started", "got": [], "raised": None, "events": [], "stats": {}}
+    if spec.get("fd_headroom"):
+        # a long run of worker replacements under a low descriptor limit: descriptors kept per finished worker run out
+        import resource
+        soft, hard = resource.getrlimit(resource.RLIMIT_NOFILE)
+        now = len(os.listdir("/proc/self/fd"))
+        lim = now + int(spec["fd_headroom"])
+        if hard != resource.RLIM_INFINITY: lim = min(lim, hard)
+        resource.setrlimit(resource.RLIMIT_NOFILE, (lim, hard))
+        res["fd_limit"] = lim
     stats = {"line_events": 0, "line_sleeps": 0, "instr_events": 0, "instr_sleeps": 0}
     def finish(code=0):
         res["stats"] = stats
